@@ -64,3 +64,8 @@ claim('C12',
       note="Trusted: the recorder and a re-evaluation with dadi's own ll/ll_multinom (decided under C11). For the log-parameter SciPy wrappers the start is kept a relative 1e-9 inside the bounds: exp(log(b)) can exceed b by one ulp, so a start exactly on a bound cannot satisfy both clauses. Small evaluation budgets; convergence quality is not judged.",
       technique="property-based testing (Hypothesis) with a recording model wrapper and invariants over the evaluation trace",
       design_ref="DESIGN.md 3/C12")
+claim('C18',
+      text="Genotype partitions are enumerated exhaustively for every even sequenced size 2..20 and allele count and compared (set equality, probabilities) with a brute-force enumeration at F=0, F->0 and random F; projection, heterozygote-miscall, no-call and enough-covered quantities are compared with independent enumerations/convolutions on generated coverage distributions over depths 0..80; whole corrected models in 1-3 populations must not gain sites in analytic, simulated and mixed regimes and must equal the plain projection at deep coverage.",
+      note="Trusted: harness/refs/lowpass_enum.py (itertools enumeration, math.factorial, numpy.convolve). RNGs (LowPass.rng, numpy global) seeded from the case. The simulated regime is only checked for the inequality and non-negativity, not against an oracle (it is Monte Carlo).",
+      technique="exhaustive enumeration of partitions plus property-based testing (Hypothesis) against brute-force enumeration oracles",
+      design_ref="DESIGN.md 3/C18")
